@@ -1019,6 +1019,7 @@ Lemma fire_decomp : forall st script st' ev, Top st -> fire st script = Ok (st',
     Inv st4 /\ DInv st4 (map snd ex ++ padds (pending st4)) /\ calling st4 = true /\
     reset_loop (set_calling st4 false) ex (clk st) = Ok st6 /\ Inv st6 /\
     heap st' = heap st6 /\ timers st' = timers st6 /\ active st' = active st6 /\ next_seq st' = next_seq st6 /\
+    pending st' = pending st6 /\
     exists e, ev = evs ++ e /\ rlog e = [].
 Proof.
   intros st script st' ev (I & D & C & _) H. unfold fire in H.
@@ -1060,6 +1061,9 @@ Proof.
   - destruct (timers st6) as [|[dq aq] r] eqn:ET6; [inversion H; subst; auto|].
     destruct (deref st6 aq) as [o| |]; cbn [bind] in H; try discriminate.
     destruct (0 <? o_exp o); [|inversion H; subst; auto]. rewrite reset_timerfd_exact in H. inversion H; subst. cbn. auto.
+  - destruct (timers st6) as [|[dq aq] r]; [inversion H; subst; auto|].
+    destruct (deref st6 aq) as [o| |]; cbn [bind] in H; try discriminate.
+    destruct (0 <? o_exp o); [|inversion H; subst; auto]. rewrite reset_timerfd_exact in H. inversion H; subst. reflexivity.
   - destruct (timers st6) as [|[dq aq] r]; [inversion H; subst; auto|].
     destruct (deref st6 aq) as [o| |]; cbn [bind] in H; try discriminate.
     destruct (0 <? o_exp o); [|inversion H; subst; auto]. rewrite reset_timerfd_exact in H. inversion H; subst. reflexivity.
